@@ -364,6 +364,11 @@ def check_C18(tier, seed):
     for i, flip in enumerate([{"bmv": False}, {"bmh": True, "enc": False}, {"enc": False}, {"serde": True}, {"mv": "rust"}, {"mv": "nalgebra", "enc": False}, {"rustfmt": True}, {"validate": "all"},
                               {"validate": "empty"}, {"validate": "all-PUSH_CONSTANT"}, {"validate": "only-PUSH_CONSTANT"}, {"include": "a.wgsl"}, {"include": "b.wgsl"}, {"include": "dir/a.wgsl"}, {"include": "dir\\a.wgsl"}, {"include": "..\\x\\a.wgsl"}]):
         L.append({"id": "h-flip-%d" % i, "family": "history", "S": twins[0], "opts": dict(base_o, **flip), "repeat": 1})
+    kw = {"structs": [{"name": "KW", "members": [{"name": "box", "ty": {"k": "scalar", "s": "f32"}}]}],
+          "globals": [{"name": "kwbuf", "space": "storage_r", "group": "0", "binding": "0", "ty": {"k": "struct", "name": "KW"}}], "consts": [], "overrides": [], "functions": [],
+          "entries": [{"name": "main", "stage": "compute", "params": [], "body": [{"k": "access", "g": "kwbuf", "how": "addr"}], "wg": ["1"]}]}
+    for i in range(3):
+        L.insert(1 + 40 * i, {"id": "h-panics-%d" % i, "family": "history", "S": kw, "opts": F.opts(rustfmt=False), "repeat": 1})
     # (i) in one process, with repeats
     evA = run_vdriver_raw("gen", L, "C18_A", extra=["--no-project", "--no-s"])
     # (ii) another process: reversed order (different history of previous calls), other cwd, scrubbed environment
@@ -460,7 +465,7 @@ def check_C18(tier, seed):
 
 
 FMT_PLANS = ["ok", "slow", "fail_after_read", "slow_read", "fail_no_read", "empty", "ok_no_read", "ok_partial_read", "kill_no_read", "kill_after_read", "kill_mid_read",
-             "kill_mid_output", "term_after_read", "absent", "near_swap", "near_str_ws", "near_prefix", "near_twice", "near_source_ws", "near_field_swap", "near_swap_raw", "near_str_ws_raw", "near_twice_raw", "near_source_ws_raw", "noexec", "isdir", "fail_utf8_cut", "kill_utf8_cut", "ok_utf8_cut"]
+             "kill_mid_output", "term_after_read", "absent", "near_swap", "near_str_ws", "near_prefix", "near_twice", "near_source_ws", "near_field_swap", "near_swap_raw", "near_str_ws_raw", "near_twice_raw", "near_source_ws_raw", "noexec", "isdir", "fail_utf8_cut", "kill_utf8_cut", "ok_utf8_cut", "near_str_case", "near_str_case_raw", "near_drop_last", "near_drop_last_raw"]
 
 
 def describe_fmt(case, events, matched):
@@ -505,6 +510,7 @@ def check_C19(tier, seed):
     fmt_env()
     small = [F.role_shader(rng)[0] for _ in range(3 if quick else 12)]
     large = [F.wide(120, 150), F.wide(300, 20)] if quick else [F.wide(120, 150), F.wide(300, 20), F.wide(60, 400), F.wide(500, 4)]
+    huge = F.wide(700, 300)
     cases = []
     k = 0
     for cls, shaders in (("small", small), ("large", large)):
@@ -516,6 +522,8 @@ def check_C19(tier, seed):
                     cases.append({"id": "fmt-%s%d-%s%s" % (cls, si, plan, "-late" if late else ""), "family": "fmt-" + plan, "S": S,
                                   "opts": F.opts(rustfmt=True, enc=True, mv="glam"), "fmt_plan": plan, "fmt_late": late, "size_class": cls})
                     k += 1
+    for plan in ("near_drop_last", "near_drop_last_raw", "near_twice", "near_swap", "ok", "fail_after_read"):
+        cases.append({"id": "fmt-huge-%s" % plan, "family": "fmt-" + plan, "S": huge, "opts": F.opts(rustfmt=True, enc=True, mv="glam"), "fmt_plan": plan, "fmt_late": False, "size_class": "large"})
     # formatter-on = formatter-off, token for token, on many more shaders (real rustfmt through the stub)
     for i in range(40 if quick else 600):
         S = F.role_shader(rng)[0] if i % 2 else F.rand_shader(rng, names=True)
@@ -594,6 +602,12 @@ def check_static_structs(prop, tier, seed):
         mv = ("rust", "glam", "nalgebra")[i % 3]
         rcases.append({"id": "role-%05d" % i, "family": "struct-roles-random", "S": S,
                        "opts": F.opts(bmh=not has_rt, enc=True, mv=mv, serde=(i % 5 == 0))})
+    # the front end accepts repeated member names: every member still becomes a field, in order
+    for i, names in enumerate([["a", "b", "a"], ["x", "x"], ["m", "n", "m", "n"]]):
+        rcases.append({"id": "dupmem-%d" % i, "family": "struct-duplicate-member-names", "opts": F.opts(mv=("rust", "glam")[i % 2]),
+                       "S": {"structs": [{"name": "D", "members": [{"name": nm_, "ty": [{"k": "scalar", "s": "f32"}, {"k": "vec", "n": 2, "s": "f32"}, {"k": "scalar", "s": "u32"}, {"k": "vec", "n": 4, "s": "f32"}][j]} for j, nm_ in enumerate(names)]}],
+                             "globals": [{"name": "d", "space": "storage_r", "group": "0", "binding": "0", "ty": {"k": "struct", "name": "D"}}], "consts": [], "overrides": [], "functions": [],
+                             "entries": [{"name": "main", "stage": "compute", "params": [], "body": [{"k": "access", "g": "d", "how": "addr"}], "wg": ["1"]}]}})
     drive_and_judge(rep, prop, rcases, "roles", keep)
     # every struct role of MC_Structs (reachable from a variable AND entry parameter / result, builtin members before located ones, ...)
     rs = structs_mc(rep, quick, early=EARLY, check_work=False)
@@ -671,6 +685,16 @@ def check_C01(tier, seed):
                             [{"name": "u", "space": "uniform", "group": "0", "binding": "0", "ty": F.VEC4}], []]):
         cases.append({"id": "noentry-%d" % i, "family": "compile-no-entry-point", "S": {"structs": [], "globals": gl, "consts": [{"name": "K", "decl": "u32", "expr": "3u", "expect": "u32:3"}],
                       "overrides": [{"name": "scale", "ty": "f32", "default": "1.0"}] if i % 2 else [], "functions": [], "entries": []}, "opts": F.opts(validate=("none", "all")[i % 2])})
+    dup = {"structs": [{"name": "D", "members": [{"name": "a", "ty": {"k": "scalar", "s": "f32"}}, {"name": "b", "ty": {"k": "vec", "n": 2, "s": "f32"}}, {"name": "a", "ty": {"k": "scalar", "s": "u32"}}]}],
+           "globals": [{"name": "d", "space": "storage_r", "group": "0", "binding": "0", "ty": {"k": "struct", "name": "D"}}], "consts": [], "overrides": [], "functions": [],
+           "entries": [{"name": "main", "stage": "compute", "params": [], "body": [{"k": "access", "g": "d", "how": "addr"}], "wg": ["1"]}]}
+    cases.append({"id": "dup-member-0", "family": "compile-ident", "S": dup, "opts": F.opts()})
+    # compute entries whose workgroup size is given by overrides (literal default, expression default, no default)
+    for i, (ovs, wg) in enumerate([([{"name": "base", "ty": "u32", "default": "4u"}, {"name": "wide", "ty": "u32", "default": "2 * base"}], ["wide"]),
+                                   ([{"name": "n", "ty": "u32"}], ["n", "2"]), ([{"name": "wx", "ty": "u32", "default": "16u"}, {"name": "wy", "ty": "u32"}], ["wx", "wy", "1"]),
+                                   ([{"name": "k", "ty": "i32", "default": "8"}], ["k"])]):
+        cases.append({"id": "wg-override-%d" % i, "family": "compile-workgroup-size-overrides", "S": {"structs": [], "globals": [], "consts": [], "overrides": ovs, "functions": [],
+                      "entries": [{"name": "main", "stage": "compute", "params": [], "body": [], "wg": wg}, {"name": "fs_main", "stage": "fragment", "params": [], "body": [], "wg": []}]}, "opts": F.opts(rustfmt=(i % 2 == 0))})
     # scalar constants named like the local bindings of the generated root-level functions (identifier patterns resolve to constants)
     for i, nm in enumerate(["device", "source", "module", "entry", "targets", "overrides", "entries", "value", "pass", "bind_group0", "step_mode", "v_in", "layout", "bindings", "index", "Device"]):
         S = {"structs": [{"name": "VIn", "snake": "v_in", "members": [{"name": "p", "ty": F.VEC4, "io": {"k": "loc", "n": 0}}]}],
@@ -780,6 +804,12 @@ def check_C02(tier, seed):
     r2 = run_mc("MC_StagesCtx.tla", "MC_StagesCtx.cfg", workers=8, consts={"DA": "1", "DC": "1" if quick else "2", "Memo": "TRUE" if MEMO else "FALSE"})
     rep.add_mc("MC_StagesCtx", r2, "exported shaders validated by real pipeline creation")
     ctx = cases_from_S(r2.cases[::(2 if quick else 1)], "ctx", "stages-ctx", vary_validate=False)
+    # buffers above 64 KiB (no limit of any device may leak into the layout)
+    for i, (sp, n_) in enumerate([("uniform", 4097), ("uniform", 4096), ("storage_r", 4097), ("storage_rw", 70000)]):
+        B = F.bgd_shader([{"g": 0, "b": 0}, {"g": 0, "b": 1}], use=True, tys=[{"k": "array", "n": n_, "e": F.VEC4}, F.VEC4])
+        B["globals"][0]["space"] = sp
+        B["entries"] = [{"name": "cs_main", "stage": "compute", "params": [], "body": B["entries"][0]["body"], "wg": ["1"]}]
+        ctx.append({"id": "big-%d" % i, "family": "large-buffers", "S": B, "opts": F.opts()})
     # a buffer that only the innermost helper of a long call chain touches (procedure calls and value-returning calls)
     ctx += [{"id": "deep-%d-%s" % (d, "ret" if ret else "void"), "family": "deep-call-chain", "S": F.chain(d, ret), "opts": F.opts()} for d in (31, 33, 40, 70, 100) for ret in (False, True)]
     compiled_and_judge(rep, "C02", ctx, "ctx", "realrun", want, keep=["groups"])
@@ -979,6 +1009,12 @@ def entry_cases(rep, rng, quick):
                 e["result"] = r_
             ents.append(e)
         cases.append({"id": "ent-frag-same-type-%d" % i, "family": "entries-fragment-results-of-one-type", "S": {"structs": [], "globals": [], "consts": [], "overrides": [], "functions": [], "entries": ents}, "opts": F.opts()})
+    # two vertex input structs whose snake-case names coincide (the clean generator emits a helper that does not compile: finding F13)
+    for i, (a, b) in enumerate([("VertexInput", "vertex_input"), ("Particle", "particle")]):
+        cases.append({"id": "ent-snake-%d" % i, "family": "entries-same-snake-name", "opts": F.opts(),
+                      "S": {"structs": [{"name": a, "members": [{"name": "a", "ty": F.VEC4, "io": {"k": "loc", "n": 0}}]}, {"name": b, "members": [{"name": "b", "ty": F.VEC4, "io": {"k": "loc", "n": 1}}]}],
+                            "globals": [], "consts": [], "overrides": [], "functions": [],
+                            "entries": [{"name": "vs_main", "stage": "vertex", "params": [{"k": "struct", "name": "p", "ty": a}, {"k": "struct", "name": "q", "ty": b}], "result": {"k": "builtin", "b": "position"}, "body": [], "wg": []}]}})
     rcases = []
     for i in range(120 if quick else 2500):
         S, has_rt = F.role_shader(rng, big_arrays=False, entry_names=True)
